@@ -65,7 +65,16 @@ def spec_generate(n, pairs):
 # --------------------------------------------------------------------------- implementation adaptors
 
 def ind(v):
+    """A design point holding v - as a list of Python floats, a list of numpy scalars or a float ndarray (the containers
+    the framework's own algorithms create points with; CMA-ES / CEM use rows of sampled matrices)."""
     from artap.individual import Individual
+    k = (len(v) * 7 + int(abs(float(v[0])) * 1e6)) % 4 if len(v) else 0
+    if k == 2:
+        import numpy as np
+        return Individual([np.float64(t) for t in v])
+    if k == 3:
+        import numpy as np
+        return Individual(np.array([float(t) for t in v]))
     return Individual(list(v))
 
 
